@@ -332,52 +332,85 @@ Qed.
 
 (* ---------------------------------------------------------- hash round trip *)
 
-Variable bcrypt_gen : string -> Z -> string -> string.
+Variable bcrypt_gen : string -> Z -> string -> option string.
 Notation make_password := (make_password pbkdf2 bcrypt_gen).
+
+Lemma make_pbkdf2 : forall pw salt iterations len cost,
+  make_password AlgPbkdf2 pw salt iterations len cost =
+  Some (mkPassword "pbkdf2" "sha-256" (Some (hex_encode (pbkdf2 pw salt iterations len)))
+                   (hex_encode salt) iterations).
+Proof. reflexivity. Qed.
+
+Lemma match_made_pbkdf2 :
+  (forall pw s i n, (0 <= n)%Z -> Z.of_nat (String.length (pbkdf2 pw s i n)) = n) ->
+  forall pw salt iterations len pw', (0 <= len)%Z ->
+  pw_match (mkPassword "pbkdf2" "sha-256" (Some (hex_encode (pbkdf2 pw salt iterations len)))
+                       (hex_encode salt) iterations) pw' =
+  MOk (String.eqb (pbkdf2 pw salt iterations len) (pbkdf2 pw' salt iterations len)).
+Proof.
+  intros Hlen pw salt iterations len pw' Hl.
+  unfold Auth.pw_match.
+  cbn [p_type p_hash p_key p_salt p_iter]. cbn [String.eqb Ascii.eqb Bool.eqb].
+  rewrite !hex_decode_encode. cbn [String.eqb Ascii.eqb Bool.eqb].
+  rewrite Hlen by exact Hl. reflexivity.
+Qed.
 
 Lemma roundtrip_pbkdf2 :
   (forall pw s i n, (0 <= n)%Z -> Z.of_nat (String.length (pbkdf2 pw s i n)) = n) ->
   forall pw salt iterations length cost, (0 <= length)%Z ->
-  pw_match (make_password AlgPbkdf2 pw salt iterations length cost) pw = MOk true.
+  exists p, make_password AlgPbkdf2 pw salt iterations length cost = Some p /\
+            pw_match p pw = MOk true.
 Proof.
-  intros Hlen pw salt iterations len cost Hl.
-  unfold Auth.make_password, Auth.pw_match.
-  cbn [p_type p_hash p_key p_salt p_iter]. cbn [String.eqb Ascii.eqb Bool.eqb].
-  rewrite !hex_decode_encode. cbn [String.eqb Ascii.eqb Bool.eqb].
-  rewrite Hlen by exact Hl. rewrite String.eqb_refl. reflexivity.
+  intros Hlen pw salt iterations len cost Hl. eexists. split; [apply make_pbkdf2|].
+  rewrite match_made_pbkdf2 by assumption. now rewrite String.eqb_refl.
 Qed.
 
+(* whenever the tool produces a bcrypt record, it verifies for the password *)
 Lemma roundtrip_bcrypt :
-  (forall pw cost salt, bcrypt_check (bcrypt_gen pw cost salt) pw = BMatch) ->
-  forall pw salt iterations length cost,
-  pw_match (make_password AlgBcrypt pw salt iterations length cost) pw = MOk true.
+  (forall pw cost salt h, bcrypt_gen pw cost salt = Some h -> bcrypt_check h pw = BMatch) ->
+  forall pw salt iterations length cost p,
+  make_password AlgBcrypt pw salt iterations length cost = Some p ->
+  pw_match p pw = MOk true.
 Proof.
-  intros H pw salt iterations len cost.
-  unfold Auth.make_password, Auth.pw_match. cbn. rewrite H. reflexivity.
+  intros H pw salt iterations len cost p Hp. unfold Auth.make_password in Hp.
+  destruct (bcrypt_gen pw cost salt) as [h|] eqn:E; [|discriminate].
+  inversion Hp; subst. unfold Auth.pw_match. cbn. rewrite (H _ _ _ _ E). reflexivity.
 Qed.
+
+(* the tool hands the password to bcrypt as it is: it produces a record
+   exactly when the library produces a hash OF THAT PASSWORD ... *)
+Lemma make_bcrypt : forall pw salt iterations length cost,
+  make_password AlgBcrypt pw salt iterations length cost =
+  option_map (fun h => mkPassword "bcrypt" "" (Some h) "" 0%Z) (bcrypt_gen pw cost salt).
+Proof. intros. unfold Auth.make_password. destruct (bcrypt_gen pw cost salt); reflexivity. Qed.
+
+(* ... so it refuses every password the library refuses: those longer than
+   72 bytes, of which bcrypt would only see a prefix *)
+Lemma tool_refuses_long_bcrypt :
+  (forall pw cost salt, 72 < String.length pw -> bcrypt_gen pw cost salt = None) ->
+  forall pw salt iterations length cost, 72 < String.length pw ->
+  make_password AlgBcrypt pw salt iterations length cost = None.
+Proof. intros H pw salt iterations len cost Hl. rewrite make_bcrypt, H by exact Hl. reflexivity. Qed.
 
 Lemma roundtrip_wildcard : forall pw pw' salt iterations length cost,
-  pw_match (make_password AlgWildcard pw salt iterations length cost) pw' = MOk true.
-Proof. reflexivity. Qed.
+  exists p, make_password AlgWildcard pw salt iterations length cost = Some p /\
+            pw_match p pw' = MOk true.
+Proof. intros. eexists. split; reflexivity. Qed.
 
 (* "and for no other password" is exactly collision-freeness of the oracle *)
 Lemma no_other_iff_injective :
   (forall pw s i n, (0 <= n)%Z -> Z.of_nat (String.length (pbkdf2 pw s i n)) = n) ->
-  forall pw salt iterations length cost, (0 <= length)%Z ->
-  ((forall pw', pw_match (make_password AlgPbkdf2 pw salt iterations length cost) pw' = MOk true ->
-                pw' = pw) <->
+  forall pw salt iterations length cost p, (0 <= length)%Z ->
+  make_password AlgPbkdf2 pw salt iterations length cost = Some p ->
+  ((forall pw', pw_match p pw' = MOk true -> pw' = pw) <->
    (forall pw', pbkdf2 pw' salt iterations length = pbkdf2 pw salt iterations length -> pw' = pw)).
 Proof.
-  intros Hlen pw salt iterations len cost Hl.
-  assert (E : forall pw', pw_match (make_password AlgPbkdf2 pw salt iterations len cost) pw' =
-                          MOk (String.eqb (pbkdf2 pw salt iterations len) (pbkdf2 pw' salt iterations len))).
-  { intros pw'. unfold Auth.make_password, Auth.pw_match.
-    cbn [p_type p_hash p_key p_salt p_iter]. cbn [String.eqb Ascii.eqb Bool.eqb].
-    rewrite !hex_decode_encode. cbn [String.eqb Ascii.eqb Bool.eqb].
-    rewrite Hlen by exact Hl. reflexivity. }
+  intros Hlen pw salt iterations len cost p Hl Hp.
+  rewrite make_pbkdf2 in Hp. inversion Hp; subst p. clear Hp.
   split; intros H pw' H'.
-  - apply H. rewrite E, H', String.eqb_refl. reflexivity.
-  - apply H. rewrite E in H'. inversion H' as [H2]. apply String.eqb_eq in H2. auto.
+  - apply H. rewrite match_made_pbkdf2 by assumption. rewrite H', String.eqb_refl. reflexivity.
+  - apply H. rewrite match_made_pbkdf2 in H' by assumption.
+    inversion H' as [H2]. apply String.eqb_eq in H2. auto.
 Qed.
 
 End Login.
@@ -392,11 +425,11 @@ End Login.
 Definition hash_no_other_statement : Prop :=
   forall (pbkdf2 : string -> string -> Z -> Z -> string)
          (bcrypt_check : string -> string -> bcrypt_out)
-         (bcrypt_gen : string -> Z -> string -> string),
+         (bcrypt_gen : string -> Z -> string -> option string),
   (forall pw s i n, (0 <= n)%Z -> Z.of_nat (String.length (pbkdf2 pw s i n)) = n) ->
-  forall pw salt iterations length cost pw', (0 <= length)%Z ->
-  pw_match pbkdf2 bcrypt_check
-    (make_password pbkdf2 bcrypt_gen AlgPbkdf2 pw salt iterations length cost) pw' = MOk true ->
+  forall pw salt iterations length cost p pw', (0 <= length)%Z ->
+  make_password pbkdf2 bcrypt_gen AlgPbkdf2 pw salt iterations length cost = Some p ->
+  pw_match pbkdf2 bcrypt_check p pw' = MOk true ->
   pw' = pw.
 
 Fixpoint zeros (n : nat) : string :=
@@ -408,11 +441,11 @@ Proof. induction n; cbn; auto. Qed.
 Lemma hash_no_other_refuted : ~ hash_no_other_statement.
 Proof.
   intros H.
-  specialize (H (fun _ _ _ n => zeros (Z.to_nat n)) (fun _ _ => BError) (fun _ _ _ => "")).
+  specialize (H (fun _ _ _ n => zeros (Z.to_nat n)) (fun _ _ => BError) (fun _ _ _ => None)).
   assert (L : forall (pw s : string) (i n : Z), (0 <= n)%Z ->
               Z.of_nat (String.length (zeros (Z.to_nat n))) = n).
   { intros. rewrite zeros_length. apply Z2Nat.id. assumption. }
-  specialize (H L "a" "" 1%Z 4%Z 0%Z "b"). 
-  assert (X : "b" = "a") by (apply H; [lia|reflexivity]).
+  specialize (H L "a" "" 1%Z 4%Z 0%Z).
+  assert (X : "b" = "a") by (eapply H; [lia|reflexivity|reflexivity]).
   discriminate.
 Qed.
